@@ -156,20 +156,21 @@ var prefixRe = regexp.MustCompile(`\b[0-9a-f]{12}_`)
 
 // muxGen holds generator biases set by the profile of the property under check.
 type muxGen struct {
-	variants      []string // subset of mpegts fmp4 ll
-	minCalls      int
-	maxCalls      int
-	paramChanges  bool // generate codec parameter changes
-	constLeading  bool // leading track has a constant sample duration (C19)
-	fastRotation  bool // SegmentMinDuration tiny: a rotation almost every key frame
-	allowZeroDur  bool // frame durations of 0 allowed
-	negativeStart bool
-	bigPayloads   bool // payload sizes straddling SegmentMaxSize (C18)
-	singleAUAudio bool
-	noMidGOP      bool
-	keyEvery      int // if >0 force regular GOP
-	videoOnly     bool
-	forceVideo    bool
+	variants       []string // subset of mpegts fmp4 ll
+	minCalls       int
+	maxCalls       int
+	paramChanges   bool // generate codec parameter changes
+	constLeading   bool // leading track has a constant sample duration (C19)
+	fastRotation   bool // SegmentMinDuration tiny: a rotation almost every key frame
+	allowZeroDur   bool // frame durations of 0 allowed
+	negativeStart  bool
+	bigPayloads    bool // payload sizes straddling SegmentMaxSize (C18)
+	singleAUAudio  bool
+	noMidGOP       bool
+	keyEvery       int // if >0 force regular GOP
+	videoOnly      bool
+	forceVideo     bool
+	paramChangeDen int // a parameter change at a key frame with probability 1/paramChangeDen (default 6)
 }
 
 var aacRates = []int{8000, 11025, 12000, 16000, 22050, 24000, 32000, 44100, 48000, 88200, 96000}
@@ -491,7 +492,11 @@ func genVideoCalls(T *Tape, g *muxGen, c *muxCfg, ts *trackSpec, _ []*writeCall,
 			} else {
 				inband = T.Chance(1, 2)
 			}
-			if g.paramChanges && firstKeyDone && T.Chance(1, 6) {
+			den := g.paramChangeDen
+			if den == 0 {
+				den = 6
+			}
+			if g.paramChanges && firstKeyDone && T.Chance(1, den) {
 				variant++
 				p = videoParamVariant(ts.kind, T.Intn(4)+4*variant)
 				if !p.equal(cur) {
